@@ -112,3 +112,22 @@ Example C10_nonvacuous_string_literals :
   ordered 6 ex_call = true /\
   option_map (map a_start) (string_literals 6 ex_call) = Some [mkPos 1 5; mkPos 1 11].
 Proof. vm_compute. split; reflexivity. Qed.
+
+(* the partition theorems cover CRLF and indented texts as they are (C10_split_lossless has no hypothesis
+   on the text): a continuation backslash before a CRLF line end keeps the blank line in the statement's
+   piece (fix C10a); an indented block with a `;` join, node columns shifted back by the margin (fix C10b) *)
+Definition ex_t3 := of_str (dec "y = 1 $5c;$d;$a;$d;$a;z = 2$d;$a;"%string) (mkPos 1 1).
+Definition ex_ns3 : list (node N) := [mkNode (mkPos 1 1) 1 0%N; mkNode (mkPos 3 1) 3 1%N].
+Example C10_nonvacuous_crlf :
+  wf_nodes ex_t3 ex_ns3 = true /\
+  option_map (map (fun p => (option_map n_tag (fst p), joined (snd p)))) (statements ex_ns3 ex_t3)
+  = Some [(Some 0%N, dec "y = 1 $5c;$d;$a;$d;$a;"%string); (Some 1%N, dec "z = 2$d;$a;"%string)].
+Proof. vm_compute. repeat split. Qed.
+Definition ex_t4 := of_str (dec "    x = 1; y = 2$a;    # c$a;    z = 3$a;"%string) (mkPos 1 1).
+Definition ex_ns4 : list (node N) := [mkNode (mkPos 1 1) 1 0%N; mkNode (mkPos 1 12) 1 1%N; mkNode (mkPos 3 1) 3 2%N].
+Example C10_nonvacuous_indented :
+  wf_nodes ex_t4 ex_ns4 = true /\
+  option_map (map (fun p => (option_map n_tag (fst p), joined (snd p)))) (statements ex_ns4 ex_t4)
+  = Some [(Some 0%N, dec "    x = 1; "%string); (Some 1%N, dec "y = 2$a;"%string);
+          (None, dec "    # c$a;"%string); (Some 2%N, dec "    z = 3$a;"%string)].
+Proof. vm_compute. repeat split. Qed.
